@@ -133,6 +133,40 @@ def main(chk: Check):
         # the scorer re-indexes nodes by position in part_names: same tree, different numbering
         return "ok " + " ".join(str(int(i)) for i in r[1]), [(nodes.index(u), nodes.index(v)) for u, v in edges]
 
+    import numpy as np
+    import sleap_nn.inference.paf_grouping as pg
+
+    def impl_grouping(edges, n_animals):
+        """The order actually USED for grouping: run the real group_instances_sample on a frame
+        with `n_animals` complete animals (one peak per node each, every edge matched with score 1)
+        and record the key order of the `connections` dict it hands to
+        assign_connections_to_instances.  Returns (order used as edge indices, n instances, n NaN)."""
+        nodes = sorted({x for e in edges for x in e})
+        names = [f"n{v}" for v in nodes]
+        scorer = PAFScorer(part_names=names, edges=[(f"n{u}", f"n{v}") for u, v in edges], pafs_stride=2)
+        n = len(nodes)
+        peaks = np.array([[10.0 * c + a, 7.0 * a] for c in range(n) for a in range(n_animals)], dtype="float32")
+        vals = np.ones(len(peaks), dtype="float32")
+        chan = np.array([c for c in range(n) for a in range(n_animals)], dtype="int64")
+        m_edge = np.array([k for k in range(len(edges)) for a in range(n_animals)], dtype="int64")
+        m_src = np.array([a for k in range(len(edges)) for a in range(n_animals)], dtype="int64")
+        m_dst = m_src.copy()
+        m_score = np.ones(len(m_edge), dtype="float32")
+        used = []
+        orig = pg.assign_connections_to_instances
+
+        def spy(connections, *a, **k):
+            used.append([scorer.edge_types.index(et) for et in connections.keys()])
+            return orig(connections, *a, **k)
+
+        pg.assign_connections_to_instances = spy
+        try:
+            inst, _, _ = pg.group_instances_sample(peaks, vals, chan, m_edge, m_src, m_dst, m_score, n,
+                                                   scorer.sorted_edge_inds, scorer.edge_types, 0, 0.25)
+        finally:
+            pg.assign_connections_to_instances = orig
+        return used[0], int(inst.shape[0]), int(np.isnan(inst).any(axis=-1).sum())
+
     cases = []  # (kind, edges)
     rng = chk.rng
     # corpus / fixed regression cases first
@@ -144,7 +178,7 @@ def main(chk: Check):
                 for perm in itertools.permutations(edges):
                     cases.append((f"exh{n}", list(perm)))
         for edges, _ in all_rooted_trees(6):
-            for _ in range(3):
+            for _ in range(12):
                 p = edges[:]
                 rng.shuffle(p)
                 cases.append(("exh6_sampled_listing", p))
@@ -153,8 +187,8 @@ def main(chk: Check):
             for edges, _ in all_rooted_trees(n):
                 for perm in itertools.permutations(edges):
                     cases.append((f"exh{n}", list(perm)))
-    for _ in range(chk.n(600, 6000)):
-        n = rng.choice([2, 3, 4, 5, 6, 7, 7, 8, 12, 20])
+    for _ in range(chk.n(600, 60000)):
+        n = rng.choice([2, 3, 4, 5, 6, 7, 7, 7, 7, 8, 12, 20, 40] if chk.thorough else [2, 3, 4, 5, 6, 7, 7, 8, 12, 20])
         cases.append((f"rand{n}", random_tree(rng, n)[0]))
     for _ in range(chk.n(200, 2000)):
         cases.append(malformed(rng))
@@ -187,6 +221,21 @@ def main(chk: Check):
                     if si != i:
                         # renumbering nodes keeps listing order, hence (model fact) the same index order
                         chk.disagree("PAFScorer.sorted_edge_inds == toposort_edges", {"edges": edges}, si, i)
+                na = 1 + idx % 2
+                g = call(impl_grouping, edges, na)
+                if g[0] == "raise":
+                    chk.fail(f"grouping raised on complete animals of a tree skeleton: {g[1:]}", {"edges": edges, "animals": na}, g)
+                else:
+                    used, n_inst, n_nan = g[1]
+                    gm = "ok " + " ".join(map(str, used))
+                    if gm != m:
+                        chk.disagree("edge order used by group_instances_sample == Toposort.toposort", {"edges": edges}, gm, m)
+                    why = oracle(re_edges or edges, used) if si != "raise" else None
+                    if why:
+                        chk.fail(f"C17 fails on the order used for grouping: {why}", {"edges": edges}, gm)
+                    if n_inst != na or n_nan != 0:
+                        chk.fail(f"body parts left ungrouped: {na} complete animals grouped into {n_inst} instances with {n_nan} missing nodes",
+                                 {"edges": edges, "animals": na}, {"order_used": used})
 
 
 def replay(chk: Check, payload):
